@@ -115,9 +115,63 @@ def pair(p1, p2):
   return "pair:%s+%s" % (p1, p2), body
 
 
+# ---------------------------------------------------------------- PS-class: class shapes
+#
+# outer class kind x member set of the outer class x one nested class with a member set of its own.
+# Every member kind appears at both levels and under every outer kind; names are deliberately reused
+# across scopes (the nested class, a method and a module-level class/function share a name).
+
+_MEMBER = {
+    "attr": ("  a = 1\n", "{O}.a"),
+    "init": ("  def __init__(self, v=0):\n    self.v = v\n", "{O}().v"),
+    "meth": ("  def m(self, p=0):\n    return [p]\n", "{O}().m()"),
+    "cmeth": ("  @classmethod\n  def c(cls, p=0):\n    return cls()\n", "{O}.c()"),
+    "smeth": ("  @staticmethod\n  def s(p=0):\n    return (p, 's')\n", "{O}.s()"),
+    "prop": ("  @property\n  def pr(self):\n    return 1.5\n", "{O}().pr"),
+}
+_OUTER = {
+    "plain": ("", "class Out:\n"),
+    "generic": ("from typing import Generic, TypeVar\nT = TypeVar('T')\n", "class Out(Generic[T]):\n"),
+    "derived": ("from typing import Generic, TypeVar\nT = TypeVar('T')\nclass Base(Generic[T]):\n  b = None\n", "class Out(Base[int]):\n"),
+}
+
+
+def class_shapes(tier):
+  kinds = list(_MEMBER)
+  outsets = [()] + [(k,) for k in kinds]
+  if tier != "quick":
+    outsets += list(itertools.combinations(kinds, 2))
+  for ok, (pre, head) in _OUTER.items():
+    for outer in outsets:
+      for inner in [None] + kinds:
+        for shared in ((False, True) if inner and (tier != "quick" or inner in ("attr", "cmeth")) else (False,)):
+          # shared: the nested class is named like a module-level class that is defined first and used after
+          nname = "Meta" if shared else "In"
+          body = pre
+          if shared:
+            body += "class Meta:\n  z = 'module-level'\n"
+          body += head
+          uses = []
+          for k in outer:
+            body += _MEMBER[k][0]
+            uses.append(_MEMBER[k][1].replace("{O}", "Out"))
+          if inner:
+            body += "  class %s:\n" % nname + "".join("  " + ln + "\n" for ln in _MEMBER[inner][0].rstrip("\n").split("\n"))
+            uses.append(_MEMBER[inner][1].replace("{O}", "Out." + nname))
+            uses.append("Out.%s" % nname)
+          if not outer and not inner:
+            body += "  pass\n"
+          if shared:
+            body += "def describe(m: Meta, n: Out.Meta):\n  return m\n"
+            uses += ["Meta()", "describe(Meta(), Out.Meta())"]
+          uses.append("Out")
+          body += "".join("u%d = %s\n" % (i, u) for i, u in enumerate(uses))
+          yield "cls:%s/%s/%s%s" % (ok, "+".join(outer) or "-", inner or "-", "/shared-name" if shared else ""), body
+
+
 def programs(tier):
   """List of (id, source)."""
-  out = []
+  out = list(class_shapes(tier))
   prods = [p[0] for p in PRODUCERS]
   core_p = [p[0] for p in PRODUCERS if p[1]]
   cons = [c[0] for c in CONSUMERS]
